@@ -33,6 +33,7 @@ REV = {
  'fix: after a crash the allocators ignored': ('D1', [('C01','C01.R4')]),
  'fix: a crash during mkfs left a disk': ('D2', [('C01','C01.R5')]),
  'fix: READDIR/READDIRPLUS with a cookie that is not': ('D33', [('C11','C11.V9')]),
+ 'fix: SYMLINK bounds the length of its target': ('D39', [('C07','C07.U5'),('C19','C19.M6')]),
  'fix: GetInodeLocked reads a cold inode from the committed state': ('D38', [('C03','C03.T7'),('C05','C05.F12')]),
  'fix: the advertised wtmax was refused': ('D28', [('C19','C19.M2')]),
  'fix: an index block allocated for a write that then ran out': ('D37', [('C05','C05.F10')]),
